@@ -226,6 +226,13 @@ class Builder:
             return self.int_lit()
         if k == 'arith':
             op = self.weighted([(30, '+'), (25, '-'), (20, '*'), (10, '/'), (10, '%')])
+            if self.chance(12):
+                pair = self.clobber_pair({INT, BYTE})
+                if pair:
+                    rd, mut = pair
+                    if self.chance(25):
+                        rd, mut = mut, rd
+                    return Bin(self.pick(['+', '-', '*']), rd, mut, t=INT)
             l = self.num_expr(depth - 1)
             if op in '/%' and not ('faults' in self.F and self.chance(20)):
                 r = Lit('int', self.pick([1, 2, 3, 7, 10, -1, -3]) if 'bigvals' in self.F else self.pick([1, 2, 3, 7, 10]), None, t=INT)
@@ -338,9 +345,17 @@ class Builder:
         if k == 'lit':
             return Lit('bool', self.chance(50), None, t=BOOL)
         if k == 'cmp':
+            if self.chance(12):
+                pair = self.clobber_pair({INT, BYTE})
+                if pair:
+                    return Bin(self.pick(['<', '<=', '>', '>=', '==', '!=']), pair[0], pair[1], t=BOOL)
             return Bin(self.pick(['<', '<=', '>', '>=']), self.num_expr(depth - 1), self.num_expr(depth - 1), t=BOOL)
         if k == 'eq':
             op = self.pick(['==', '!='])
+            if self.chance(15):
+                pair = self.clobber_pair({BOOL})
+                if pair:
+                    return Bin(op, pair[0], pair[1], t=BOOL)
             if self.chance(25):
                 return Bin(op, self.bool_expr(depth - 1), self.bool_expr(depth - 1), t=BOOL)
             return Bin(op, self.num_expr(depth - 1), self.num_expr(depth - 1), t=BOOL)
@@ -395,6 +410,11 @@ class Builder:
 
     def spec_expr(self, ty, depth):
         # a ?? b: both operands ordinary context
+        if self.chance(25):
+            pair = self.clobber_pair({ty})
+            if pair:
+                rd, mut = pair
+                return Spec(mut, rd, t=ty) if self.chance(70) else Spec(rd, mut, t=ty)
         old = self.in_spec
         self.in_spec = True
         try:
@@ -574,6 +594,13 @@ class Builder:
             return [Assign(tgt, self.coercing(el, 2) if el != STRING else self.string_expr(1))]
         if not vs:
             return self.probe()
+        if self.chance(10):
+            pair = self.clobber_pair({INT})
+            if pair:
+                rd, mut = pair
+                if self.chance(50):
+                    return [AugAssign(rd, self.pick(['+', '-', '*']), mut)]
+                return [Assign(rd, Bin(self.pick(['+', '-']), rd, mut, t=INT))]
         v = self.pick(vs)
         tgt = Var(v.name, t=v.ty)
         if ('tt' in self.F and self.flavor == '@' and not self.in_try and not self.in_spec
@@ -880,6 +907,52 @@ class Builder:
                 self.globals.append(VarInfo(name, ty, const=const, static_len=sl, is_global=True))
         return out
 
+    def gen_mutators(self):
+        """For some mutable scalar globals and global arrays, a helper that changes the
+        storage and returns a value of the same type: used as the *other* operand of
+        an operator / ?? / assignment whose first operand reads that storage."""
+        self.mutators = {}
+        cands = [g for g in self.globals if not g.const and g.ty in (INT, BYTE, BOOL)]
+        arrs = [g for g in self.globals if is_arr(g.ty) and not g.ty[2] and g.static_len and g.ty[1] in (INT, BYTE, BOOL)]
+        for g in cands[:3] + arrs[:2]:
+            name = self.fresh('m')
+            if is_arr(g.ty):
+                el = g.ty[1]
+                tgt = Index(Var(g.name, t=g.ty), Lit('int', 0, None, t=INT), t=el)
+                rd = Index(Var(g.name, t=g.ty), Lit('int', 0, None, t=INT), t=el)
+            else:
+                el = g.ty
+                tgt = Var(g.name, t=el)
+                rd = Var(g.name, t=el)
+            if el == INT:
+                upd = Assign(tgt, Bin('+', rd, Lit('int', self.integer(1, 9), None, t=INT), t=INT))
+                ret = self.pick([Lit('int', self.integer(0, 5), None, t=INT), rd])
+            elif el == BYTE:
+                upd = Assign(tgt, Is(Bin('+', rd, Lit('int', self.integer(1, 9), None, t=INT), t=INT), BYTE, t=BYTE))
+                ret = self.pick([Lit('char', self.integer(0, 255), None, t=BYTE), rd])
+            else:
+                upd = Assign(tgt, Un('not', rd, t=BOOL))
+                ret = self.pick([Lit('bool', self.chance(50), None, t=BOOL), rd])
+            body = [upd, Return(ret)]
+            if self.chance(50):
+                body.insert(0, ExprStmt(Call('write', [Lit('string', ('<%s>' % name).encode(), None, t=STRING)], t=EMPTY)))
+            self.func_nodes.append(Func(el, name, [], Block(body)))
+            self.mutators[g.name] = (name, el, g)
+
+    def clobber_pair(self, want):
+        """-> (reader expr, mutator call) over the same global storage, or None.
+        want: set of acceptable element types."""
+        names = {v.name for scope in self.scopes for v in scope}
+        cands = [(n, m) for n, m in getattr(self, 'mutators', {}).items() if m[1] in want and n not in names]
+        if not cands or self.in_spec and False:
+            return None
+        gname, (mname, el, g) = self.pick(cands)
+        if is_arr(g.ty):
+            rd = Index(Var(gname, t=g.ty), Lit('int', 0, None, t=INT), t=el)
+        else:
+            rd = Var(gname, t=el)
+        return rd, Call(mname, [], t=el)
+
     def entry_signature(self):
         """-> (params, argv python values)"""
         shapes = [(25, 'none'), (15, 'scalars')]
@@ -942,6 +1015,9 @@ class Builder:
         globs = self.gen_globals() if 'globals' in self.F else []
         # uninitialised global arrays are removed from visibility (contents unspecified)
         self.globals = [g for g in self.globals if g.name not in self.uninit_globals] if not self.size.get('use_uninit_globals') else self.globals
+        self.mutators = {}
+        if 'calls' in self.F and 'globals' in self.F:
+            self.gen_mutators()
         nfuncs = self.integer(0, self.size['funcs']) if 'calls' in self.F else 0
         for _ in range(nfuncs):
             flavors = [(60, '')]
